@@ -67,6 +67,15 @@ SPEC = {"vars": [["out", []], ["z_", []]], "sizes": {}, "ret": "tuple",
         "log": None}
 
 
+def spec_of(sc):
+    if sc.get("bulk"):
+        # the second variable is a long vector: the harvested dataset is tens
+        # of MiB (data sets of that size are everyday for this library)
+        return {"vars": [["out", []], ["z_", ["t"]]],
+                "sizes": {"t": sc["bulk"]}, "ret": "tuple", "log": None}
+    return SPEC
+
+
 def sampler_file(sc):
     # (a data name without any dot is as good as one with an extension)
     if sc.get("engine") == "csv":
@@ -78,8 +87,9 @@ def make_farmer(x, sc, D):
     kind = sc["farmer"]
     if kind == "raw":
         return None, crops.record(sc["kind"], None)
-    fn = labelled.make_fn(SPEC)
-    r = x.Runner(fn, ("out", "z_"))
+    fn = labelled.make_fn(spec_of(sc))
+    r = x.Runner(fn, ("out", "z_"),
+                 **({"var_dims": {"z_": ["t"]}} if sc.get("bulk") else {}))
     if kind == "runner":
         return r, fn
     if kind == "harvester":
@@ -357,7 +367,7 @@ def check_delivery(x, sc, D, res, ctx, tag, batches=None):
                         f"{want!r:.300}")
     elif kind in ("runner", "harvester"):
         labelled.check_dataset(
-            res, spec=SPEC, fn_args=["a", "b"],
+            res, spec=spec_of(sc), fn_args=["a", "b"],
             coords={"a": list(range(sc["N"])), "b": ["p"]}, requested=None,
             fn_kwargs_extra={}, constants={}, resources={}, attrs={},
             var_coords=None, explicit_names=True, tag=tag)
@@ -510,7 +520,8 @@ def run_case(case):
                         f"op={op}", outcome.split(":")[0],
                         "torn-write" if prefix else "op-boundary",
                         "double-crash" if case.get("k2") is not None
-                        else "single-crash"]}
+                        else "single-crash"] +
+                       (["dataset>64MiB"] if sc.get("bulk") else [])}
 
 
 def run_uninterrupted(x, sc):
@@ -574,6 +585,20 @@ def scenarios(tier, seed):
                 if farmer == "sampler" and r % 3 == 0:
                     sc["engine"] = "csv"
                 out.append(sc)
+    # a harvester whose dataset is well beyond 64 MiB, the reap-and-merge
+    # being the victim (in memory and lazily loaded, both engines)
+    for r in range(1 if tier == "quick" else 3):
+        r = (r + seed) % 3
+        N = rng.randint(3, 4)
+        sc = {"farmer": "harvester", "phase": "reap", "B": 2, "N": N,
+              "kind": "int", "shuffle": False, "seed": rng.randint(0, 2**31),
+              "pre_grown": [], "rm_order": "scandir",
+              "bulk": (72 << 20) // (8 * (N + 2)) + rng.randint(1, 999)}
+        if r == 1:
+            sc["engine"] = "joblib"
+        if r == 2:
+            sc["chunks"] = {"a": 2}
+        out.append(sc)
     return out
 
 
